@@ -1030,6 +1030,11 @@ EXTRACTORS["C03"] = EXTRACTORS["C03"] + [gen_saiswidth]
 THEOREMS["SaisWidth"] = ["RbV.Thm.C03.sais_width_arms_fit", "RbV.Thm.C03.sais_reduced_width_fits",
                          "RbV.Thm.C03.sais_transform_width_fits"]
 
+# genfx: dialect "fx" (tools/rs2lean_genfx.py): the FASTA / FASTQ readers and writers (C11)
+TRANSLATOR_MODULES.append("rs2lean_genfx")
+GEN_SRC.update({n: gen_src(n) for n in ("SrcFasta", "SrcFastq")})
+EXTRACTORS["C11"] = EXTRACTORS.get("C11", []) + [GEN_SRC[n] for n in ("SrcFasta", "SrcFastq")]
+
 
 def main():
     ap = argparse.ArgumentParser()
